@@ -203,10 +203,14 @@ func c01Shape(book []vPRec, m vResolved) (labels []string, nontrivial bool) {
 
 func checkC01(c c01Case, ctx *vCtx) *vFailure {
 	book := c.Book.Parsed()
-	vNoDuplicateHeads(book)
+	if vDuplicateHeads(book) {
+		ctx.Excluded("out-of-domain: duplicate heading")
+		return nil
+	}
 	m := vModelResolve(book)
 	if m.Cyclic || m.HMax >= c.N {
-		vFault("C01 generator produced a book outside the domain (cyclic=%v hmax=%d N=%d)", m.Cyclic, m.HMax, c.N)
+		ctx.Excluded("out-of-domain: not acyclic with h_max < N")
+		return nil
 	}
 	labels, nt := c01Shape(book, m)
 	for _, l := range labels {
@@ -270,7 +274,7 @@ func c01Incremental(c c01Case, book []vPRec, ctx *vCtx) *vFailure {
 	var extra []vPRec
 	for i, nm := range names {
 		if i%2 == 0 {
-			extra = append(extra, vPRec{Head: nm, Entries: []vPEntry{{"leaf=1", "2"}, {"leaf=2", "-1"}}})
+			extra = append(extra, vPRec{Head: nm, Entries: []vPEntry{{"leaf~1", "2"}, {"leaf~2", "-1"}}})
 		}
 	}
 	full := append(append([]vPRec{}, book...), extra...)
@@ -409,14 +413,14 @@ func genC01(t *rapid.T) c01Case {
 	if rapid.IntRange(0, 7).Draw(t, "deepchain") == 0 {
 		var chain []vRec
 		if rapid.Bool().Draw(t, "toempty") {
-			chain = c11ChainToEmpty("deep=", n-1)
+			chain = c11ChainToEmpty("deep~", n-1)
 		} else {
-			chain = c11Chain("deep=", n-1)
+			chain = c11Chain("deep~", n-1)
 		}
 		for ci := range chain { // the leaf of the chain must be a basic element whatever the random part defines
 			for li := range chain[ci].Lines {
 				if chain[ci].Lines[li].Name == "x" {
-					chain[ci].Lines[li].Name = "leaf=x"
+					chain[ci].Lines[li].Name = "leaf~x"
 				}
 			}
 		}
@@ -530,19 +534,25 @@ func vIsDepthError(msg string) bool {
 	return strings.Contains(l, "depth")
 }
 
-func vNoDuplicateHeads(book []vPRec) {
+// vDuplicateHeads: a book that declares a heading twice is outside the domain of C01/C11 (which declaration wins is
+// not stated). The generators avoid it by construction; should one slip through it is counted as excluded, not judged.
+func vDuplicateHeads(book []vPRec) bool {
 	seen := map[string]bool{}
 	for _, r := range book {
 		if seen[r.Head] {
-			vFault("generator produced a book with the heading %q twice (outside the domain: which one wins is not stated)", r.Head)
+			return true
 		}
 		seen[r.Head] = true
 	}
+	return false
 }
 
 func checkC11(c c11Case, ctx *vCtx) *vFailure {
 	book := c.Book.Parsed()
-	vNoDuplicateHeads(book)
+	if vDuplicateHeads(book) {
+		ctx.Excluded("out-of-domain: duplicate heading")
+		return nil
+	}
 	m := vModelResolve(book)
 	wantFail := m.Cyclic || m.HMax >= c.N
 	ctx.Label(c.Shape)
@@ -740,7 +750,7 @@ func genC11(t *rapid.T) c11Case {
 		recs = book.Recs
 		// force the depth: add a chain of length maxd in half of the cases
 		if rapid.Bool().Draw(t, "force") {
-			recs = append(recs, c11Chain("q=", maxd)...) // "=" never occurs in generated tame names: no duplicate headings
+			recs = append(recs, c11Chain("q~", maxd)...) // "~" never occurs in generated names: no duplicate headings
 		}
 	default: // cycles
 		c.Shape = "cycle"
